@@ -1,6 +1,6 @@
 CONFIG = {
     'subs': ['Parse', 'StrToNum'],
-    'props_modules': ['DmlcModel.Props.C11', 'DmlcModel.Props.C11Witness'],
+    'props_modules': ['DmlcModel.Props.C11', 'DmlcModel.Props.C11Witness', 'DmlcModel.Props.C11Pipeline'],
     'driver': 'Parse',
     'harness': {'name': 'parsers',
                 'srcs': ['harness/h_parsers.cc', '$REPO/src/io/line_split.cc', '$REPO/src/io/input_split_base.cc',
@@ -17,18 +17,16 @@ CONFIG = {
                     'the run of non-EOL, non-NUL bytes at the start position); the executable driver takes strtof / ParseUnsignedInt from '
                     'the C14 model DmlcModel.StrToNum.Model (Gen/StrToNum regenerated with this check) and emulates libc atoll / '
                     'strtoll in ConvSimple',
-                    'chunk cuts of the InputSplit fall directly after an end-of-line byte (C03)',
+                    'C11_pipeline composes with C03 (DmlcModel.Props.C03 / DmlcModel.Split): same hypotheses on the files as C03',
                     'x86-64, binary32 round-to-nearest-even, char compared as byte values < 0x80 only',
                     'indexing_mode >= 0 (auto-detection excluded by the property)'],
     'trusted_base': ['modelled by hand, tied by correspondence only: control flow of ParsePair / ParseTriple / '
                      'IgnoreCommentAndBlank / the three ParseBlock bodies / BackFindEndLine / FillData / ParserImpl::Next / '
                      'GetBlock / operator[]; dmlc::strtof / ParseUnsignedInt as modelled by C14 (StrToNum), libc atoll / strtoll as emulated in ConvSimple'],
-    'partial': ['C11_thread_invariant_nary_* / C11_chunk_invariant_* / C11_part_invariant_*: proved for any number of pieces '
-                'cut at / directly after end-of-line bytes; C11_fillData_slices proves that FillData\'s slices (Gen nstep / '
-                'sbegin / send + BackFindEndLine) are contiguous, cover the chunk and are cut at end-of-line bytes (or are '
-                'empty); the final repackaging of those slices as the list `joinAt z ps` of the n-ary theorem (dropping the '
-                'empty slices) is not spelled out as a theorem; for chunks / parts the cut hypothesis is C03\'s',
-                'csv theorems carry the extra hypothesis that the text has no NUL byte inside'],
+    'partial': ['C11_pipeline (files -> parts -> chunks -> FillData slices -> rows) carries one residual hypothesis: every chunk '
+                'is shorter than 2^63 - nthread bytes (C03 exports no bound on the chunk length); the memory behind a chunk is '
+                'modelled as an arbitrary non-empty function of the chunk',
+                'csv theorems carry the extra hypothesis that the text has no NUL byte inside (files are NUL-free in C11_pipeline)'],
 }
 
 MANIFEST = {
